@@ -844,7 +844,30 @@ def g_equiv(r, v):
     g = Gen(r, v)
     rel = r.choice(['named-ref', 'named-ref', 'partial-static', 'partial-static', 'partial-inline', 'partial-chain',
                     'repeat', 'expand:for-each', 'expand:filter', 'expand:fold-left', 'expand:fold-right',
-                    'expand:for-each-pair', 'expand:apply', 'ref-in-hof'])
+                    'expand:for-each-pair', 'expand:apply', 'ref-in-hof', 'focus-ref', 'focus-ref'])
+    if rel == 'focus-ref':
+        # name#0 of a focus-dependent function keeps the focus it was created under, however late it is called
+        X = r.choice((I, S))
+        src = ['seq'] + [g.lit(X) for _ in range(r.randint(1, 4))]
+        name = r.choice(['string', 'string', 'string-length', 'position', 'last'])
+        direct = {'string': lambda q: ['scall', 'string', [q]],
+                  'string-length': lambda q: ['scall', 'string-length', [['scall', 'string', [q]]]]}
+        refs = ['map', src, ['ref', name, 0]]
+        form = r.choice(['for', 'let-for', 'hof', 'map-call'])
+        if form == 'for':
+            lhs = ['for', 'f', refs, ['call', ['var', 'f'], []]]
+        elif form == 'let-for':
+            lhs = ['let', 'fs', refs, ['for', 'f', ['var', 'fs'], ['call', ['var', 'f'], []]]]
+        elif form == 'hof':
+            lhs = ['scall', 'for-each', [refs, ['fn', [['h', None]], ['call', ['var', 'h'], []], None]]]
+        else:
+            lhs = ['map', ['let', 'fs', refs, ['var', 'fs']], ['call', ['ctx'], []]]
+        if name in direct:
+            return rel, lhs, [['for', 'q', src, direct[name](['var', 'q'])]]
+        n = len(src) - 1
+        if name == 'position':
+            return rel, lhs, [['range', ['int', 1], ['int', n]]]
+        return rel, lhs, [['for', 'q', src, ['int', n]]]
     if rel == 'expand:apply' and v < '3.1':
         rel = 'expand:fold-left'
     if rel in ('named-ref', 'partial-static', 'partial-chain', 'repeat') and r.random() < 0.8:
@@ -980,7 +1003,7 @@ def g_num(r, mixed):
 
 def g_sort(r):
     kc = r.choice(['int', 'mixed-numeric', 'mixed-numeric', 'string', 'string', 'bool', 'sequence', 'sequence',
-                   'derived', 'derived', 'plain', 'plain', 'incomparable'])
+                   'derived', 'derived', 'plain', 'plain', 'incomparable', 'type-dependent-key', 'type-dependent-key'])
     n = r.randint(2, 9)
     case = {'v': '3.1', 'api': r.choice(['select', 'evaluate']), 'kc': kc,
             'coll': r.choice(['()', '()', 'uri']), 'via': r.choice(['static', 'static', 'ref', 'partial'])}
@@ -1005,6 +1028,25 @@ def g_sort(r):
             ['fn', [['x', 'xs:integer']], ['op', 'mod', nn, m], 'xs:integer'],
         ]
         case['keyfn'] = r.choice(fns)
+        case['extract'] = None
+        return case
+    if kc == 'type-dependent-key':
+        # items that are equal as numbers (1, 1.0, 1e0, xs:float('1')) but whose key depends on their TYPE:
+        # an implementation that caches keys by item value confuses them
+        base = [str(r.randint(0, 3)) for _ in range(r.randint(1, 3))]
+        items = []
+        for _ in range(n):
+            x = r.choice(base)
+            k = r.choice(['int', 'dec', 'dbl', 'flt'])
+            items.append({'int': ['int', int(x)], 'dec': ['dec', x + '.0'], 'dbl': ['dbl', x + 'e0'], 'flt': ['flt', x]}[k])
+        case['items'] = items
+        xv = ['var', 'x']
+        T = r.choice(['xs:double', 'xs:integer', 'xs:decimal', 'xs:float'])
+        case['keyfn'] = r.choice([
+            ['fn', [['x', None]], ['if', ['inst', xv, T], ['int', r.choice([10, -10])], xv], None],
+            ['fn', [['x', None]], ['if', ['inst', xv, T], ['op', '+', xv, ['int', 100]], ['neg', xv]], None],
+            ['fn', [['x', None]], ['seq', ['inst', xv, T], xv], None],
+        ])
         case['extract'] = None
         return case
     if kc == 'plain':
@@ -1319,7 +1361,33 @@ def check_equiv(case, out):
             report_program(r_ast, v, api, m[1], m[0], o2, out)
 
 
+def _model_is_cheap(ast, v):
+    """True when the reference evaluates the program within a small step budget and to a small value:
+    only then is a CPU-budget overrun of the engine attributable to the engine"""
+    ip = Interp(v, max_steps=5000)
+    try:
+        val = ip.run(ast)
+    except (ModelError, RecursionError, MemoryError):
+        return False
+    return len(val) < 5000
+
+
 def check_case(kind, case):
+    from ..core import CpuBudget
+    try:
+        return _check_case(kind, case)
+    except CpuBudget:
+        ast = case.get('prog') or case.get('lhs')
+        if ast is not None and not _model_is_cheap(ast, case['v']):
+            # generated programs may square their output at every fold step: expensive for any evaluator
+            out = Outcome()
+            out.nontrivial = False
+            out.dim('undecided', 'cpu-budget-on-a-program-the-model-finds-expensive-too')
+            return out
+        raise
+
+
+def _check_case(kind, case):
     out = Outcome()
     if kind in ('program', 'closure'):
         check_program(case, out)
